@@ -135,7 +135,8 @@ Section Pace.
     destruct P as [I2 [_ [-> _]]].
     unfold bind at 1. unfold get at 1.
     destruct (me =? leader c (s_round s2)); [|exact K].
-    apply generate_proposal_pace; auto. exact I.
+    pose proof (generate_proposal_pace hint None s2 I2 K I) as G.
+    destruct (generate_proposal me hint None s2) as [[s3 o3] r3]. exact G.
   Qed.
 
   Lemma handle_timeout_pace hint t s :
@@ -387,7 +388,8 @@ Section Pace.
     - exact HM.
     - unfold modify, st. destruct (memN d (s_buffer s)); exact HM.
     - unfold bind at 1. unfold get at 1. destruct (me =? leader c (s_round s)); [|exact HM].
-      apply generate_proposal_pace; auto. exact I.
+      pose proof (generate_proposal_pace hint None s H HM I) as G.
+      destruct (generate_proposal me hint None s) as [[s1 o1] r1]. exact G.
   Qed.
 End Pace.
 Print Assumptions step_pace.
